@@ -841,7 +841,7 @@ qb_rb_create_from_file(int32_t fd, uint32_t flags)
 	}
 	total_read += n_read;
 
-	if (word_size > (st.st_size / sizeof(uint32_t))) {
+	if (word_size == 0 || word_size > (st.st_size / sizeof(uint32_t))) {
 		qb_util_perror(LOG_ERR, "Invalid word size read from blackbox header");
 		return NULL;
 	}
@@ -862,7 +862,7 @@ qb_rb_create_from_file(int32_t fd, uint32_t flags)
 		return NULL;
 	}
 	total_read += n_read;
-	if (write_pt > st.st_size || read_pt > st.st_size) {
+	if (write_pt >= word_size || read_pt >= word_size) {
 		qb_util_perror(LOG_ERR, "Invalid pointers read from blackbox header");
 		return NULL;
 	}
